@@ -3,6 +3,7 @@
 package api
 
 import (
+	"context"
 	"encoding/json"
 	"errors"
 	"net/http"
@@ -18,7 +19,8 @@ import (
 
 // {"timeout": Config.Timeout in ms (0: no timeout handler budget), "calls": [[class, status, route], ...]}
 // class 0 WriteHeader(status) | 1 Write without WriteHeader | 2 nothing written | 4 panic(string) | 5 panic(error) |
-// 7 panic(nil) | 8 panic(http.ErrAbortHandler) | 9 a runtime error panic;
+// 7 panic(nil) | 8 panic(http.ErrAbortHandler) | 9 a runtime error panic | 10 the client disconnects mid-flight (request
+// context cancelled after the breaker let the call in, while the route is running);
 // routes 0 GET /verif/a/get | 1 POST /verif/a/get | 2 GET /verif/b/get (each bound by the engine with its own
 // default chain, hence its own breaker).
 type verifC01Case struct {
@@ -40,8 +42,17 @@ func TestVerifDriverC01(t *testing.T) {
 		defer timex.VerifClockOff()
 		var cur []int64
 		reached := 0
+		entered := make(chan struct{}, 1)
 		h := func(w http.ResponseWriter, r *http.Request) {
 			reached++
+			switch cur[0] {
+			case 10:
+				// the client goes away while the route is running: the driver cancels the request context once the
+				// handler is inside; the handler notices and gives up without writing
+				entered <- struct{}{}
+				<-r.Context().Done()
+				return
+			}
 			switch cur[0] {
 			case 0:
 				w.WriteHeader(int(cur[1]))
@@ -86,6 +97,20 @@ func TestVerifDriverC01(t *testing.T) {
 			rec := httptest.NewRecorder()
 			req := httptest.NewRequest(method, "http://localhost"+path, nil)
 			before := reached
+			if call[0] == 10 {
+				ctx, cancel := context.WithCancel(req.Context())
+				req = req.WithContext(ctx)
+				finished := make(chan struct{})
+				go func() { defer close(finished); rt.ServeHTTP(rec, req) }()
+				select {
+				case <-entered: // let in and running: now the client disconnects
+				case <-finished: // cut off by the breaker: the handler never ran
+				}
+				cancel()
+				<-finished
+				rows = append(rows, []int64{int64(rec.Code), int64(reached - before)})
+				continue
+			}
 			escaped, _ := verifdrv.Catch(func() { rt.ServeHTTP(rec, req) })
 			status := int64(rec.Code)
 			if escaped {
